@@ -161,7 +161,12 @@ RampWrite(q, r, n) ==
 (* State.                                                                  *)
 (*   wr[x]   x's writing half:  epoch, next sequence number, bytes of x's  *)
 (*           stream accepted so far, dead (a fatal alert was sent),        *)
-(*           closed (Close was called)                                     *)
+(*           closed (Close was called), shut (close_notify went out by     *)
+(*           CloseWrite: the side still READS), exp (a write deadline      *)
+(*           that has passed is set on the transport: nothing can be put   *)
+(*           on the wire; CloseWrite leaves one behind, conn.go            *)
+(*           closeNotify), junk (a record was put on the wire after the    *)
+(*           writing half had died: it may carry a burnt number)           *)
 (*   rd[x]   x's reading half: epoch, next sequence number, bytes          *)
 (*           delivered to the application, bytes of the current record     *)
 (*           not yet returned (Conn.input), sticky error                   *)
@@ -182,7 +187,7 @@ RampWrite(q, r, n) ==
 \* sent0[x]: bytes x put on the transport during the handshake (they count for the 128 KiB)
 InitLiveAt(q, sent0) ==
   [q |-> q, live |-> TRUE,
-   wr |-> [x \in Sides |-> [ep |-> 0, seq |-> q.seq0, sent |-> 0, dead |-> FALSE, closed |-> FALSE]],
+   wr |-> [x \in Sides |-> [ep |-> 0, seq |-> q.seq0, sent |-> 0, dead |-> FALSE, closed |-> FALSE, shut |-> FALSE, exp |-> FALSE, junk |-> FALSE]],
    rd |-> [x \in Sides |-> [ep |-> 0, seq |-> q.seq0, rcvd |-> 0, buf |-> 0, err |-> "none"]],
    net |-> [x \in Sides |-> <<>>], dl |-> [x \in Sides |-> 0], cut |-> [x \in Sides |-> FALSE],
    mutoff |-> [x \in Sides |-> -1],
@@ -195,6 +200,12 @@ InitNil(q) == [InitLive(q) EXCEPT !.live = FALSE]
 InitForged(q, supported) == IF supported THEN InitLive(q) ELSE InitNil(q)
 
 NoRecs == [x \in Sides |-> <<>>]
+\* x can put records on the wire
+Usable(s, x) == ~s.wr[x].dead /\ ~s.wr[x].closed /\ ~s.wr[x].shut /\ ~s.wr[x].exp
+\* A record that is protected (the sequence number is consumed, halfConn.encrypt) but cannot be written because
+\* the write deadline has passed: nothing reaches the wire, c.out.err becomes permanent (writeRecordLocked,
+\* setErrorLocked).  The number is burnt: whatever x manages to send later does not open at the peer.
+Burn(s, x) == [s EXCEPT !.wr[x].seq = @ + 1, !.wr[x].dead = TRUE]
 Res(ok, s, m, err, wrote) == [ok |-> ok, s |-> s, m |-> m, err |-> err, wrote |-> wrote]
 Fail(s) == Res(FALSE, s, 0, "none", NoRecs)
 
@@ -204,7 +215,7 @@ Ctl(s, x, typ, req) ==
       rec == [typ |-> typ, ep |-> w.ep, seq |-> w.seq, lo |-> CtlLen(typ), hi |-> CtlLen(typ),
               wbeg |-> w.sent, wend |-> w.sent, idx |-> 1, cnt |-> 1, pre |-> 0, req |-> req, mut |-> FALSE] IN
   [rec |-> rec,
-   s |-> [s EXCEPT !.wr[x].seq = @ + 1,
+   s |-> [s EXCEPT !.wr[x].seq = @ + 1, !.wr[x].junk = @ \/ w.dead,
                    !.ramp[x].bs = @ + RecHdr + CtLen(s.q, CtlLen(typ)),     \* not application data: packetsSent stays
                    !.net[x] = IF s.cut[x] THEN @ ELSE Append(@, rec)]]
 
@@ -254,8 +265,10 @@ DoWrite1(s, x, n, c) ==
            n, "none", [NoRecs EXCEPT ![x] = recs])
 DoWrite(s, x, n, ivs) ==
   IF ~s.live THEN Fail(s)
-  ELSE IF s.wr[x].dead \/ s.wr[x].closed                       \* c.out.err / closeNotifySent / activeCall closed bit
+  ELSE IF s.wr[x].dead \/ s.wr[x].closed \/ s.wr[x].shut      \* c.out.err / activeCall closed bit / closeNotifySent
   THEN IF ivs = <<>> THEN Res(TRUE, s, 0, "error", NoRecs) ELSE Fail(s)
+  ELSE IF s.wr[x].exp /\ n > 0                                 \* the first record of the call cannot be written
+  THEN IF ivs = <<>> THEN Res(TRUE, Burn(s, x), 0, "error", NoRecs) ELSE Fail(s)
   ELSE DoWrite1(s, x, n, Shape(s.q, n, ivs))
 
 (***************************************************************************)
@@ -290,7 +303,9 @@ Pump(s, x, ch, fuel) ==
   LET h == Head(lst) IN
   IF ~Opens(h, r)
   THEN \* conn.go:690-693: in.setErrorLocked(sendAlert(bad_record_mac)); sendAlert kills the writing half too
-       IF ch.alert /\ ~s.wr[x].dead /\ ~s.wr[x].closed
+       IF s.wr[x].exp /\ ~s.wr[x].closed        \* the alert is protected but cannot be written
+       THEN [ok |-> TRUE, s |-> [Burn(s, x) EXCEPT !.rd[x].err = "error"], status |-> "err", wrote |-> <<>>]
+       ELSE IF ch.alert /\ ~s.wr[x].dead /\ ~s.wr[x].closed
        THEN LET e == Ctl(s, x, "fatal", FALSE) IN
             [ok |-> TRUE, s |-> [e.s EXCEPT !.rd[x].err = "error", !.wr[x].dead = TRUE], status |-> "err", wrote |-> <<e.rec>>]
        ELSE [ok |-> TRUE, s |-> [s EXCEPT !.rd[x].err = "error"], status |-> "err", wrote |-> <<>>]
@@ -298,7 +313,11 @@ Pump(s, x, ch, fuel) ==
   LET s1 == [s EXCEPT !.net[p] = Tail(lst), !.dl[p] = Max(@ - 1, 0), !.rd[x].seq = @ + 1] IN
   CASE h.typ = "ku" ->       \* handleKeyUpdate, conn.go:1339-1374
          LET s2 == [s1 EXCEPT !.rd[x].ep = @ + 1, !.rd[x].seq = 0] IN
-         IF h.req /\ ~s2.wr[x].dead /\ ~s2.wr[x].closed
+         \* The READ key moves first, whatever becomes of the answer.  A side that cannot write (half-closed,
+         \* write deadline passed) cannot answer: the attempt burns a sequence number and kills its writing
+         \* half ("surface the error at the next write"), Read goes on and the peer's later data arrives.
+         IF h.req /\ s2.wr[x].exp /\ ~s2.wr[x].closed THEN Pump(Burn(s2, x), x, ch, fuel - 1)
+         ELSE IF h.req /\ ~s2.wr[x].dead /\ ~s2.wr[x].closed
          THEN LET e == Ctl(s2, x, "ku", FALSE)
                   s3 == [e.s EXCEPT !.wr[x].ep = @ + 1, !.wr[x].seq = 0]
                   rest == Pump(s3, x, ch, fuel - 1) IN
@@ -346,7 +365,8 @@ DoRead(s, x, k, ch) ==
 (***************************************************************************)
 DoKeyUpdate(s, x, req) ==
   IF ~s.live \/ ~s.q.ku THEN Fail(s)
-  ELSE IF s.wr[x].dead \/ s.wr[x].closed THEN Res(TRUE, s, 0, "error", NoRecs)
+  ELSE IF s.wr[x].dead \/ s.wr[x].closed \/ s.wr[x].shut THEN Res(TRUE, s, 0, "error", NoRecs)
+  ELSE IF s.wr[x].exp THEN Res(TRUE, Burn(s, x), 0, "error", NoRecs)
   ELSE LET e == Ctl(s, x, "ku", req) IN
        Res(TRUE, [e.s EXCEPT !.wr[x].ep = @ + 1, !.wr[x].seq = 0], 0, "none", [NoRecs EXCEPT ![x] = <<e.rec>>])
 
@@ -355,12 +375,32 @@ DoKeyUpdate(s, x, req) ==
 (* writing half is usable), then x's transport is closed: x reads nothing  *)
 (* more from it, the peer sees the alert, then EOF.                        *)
 (***************************************************************************)
+\* (closeNotify re-arms the write deadline before the alert, so a passed deadline does not stop the alert;
+\*  after CloseWrite no second close_notify is sent)
 DoClose(s, x, sends) ==
   IF ~s.live \/ s.wr[x].closed THEN Fail(s)
-  ELSE IF ~s.wr[x].dead /\ ~sends THEN Fail(s)
+  ELSE IF ~s.wr[x].dead /\ ~s.wr[x].shut /\ ~sends THEN Fail(s)
+  ELSE IF s.wr[x].shut /\ sends THEN Fail(s)
   ELSE LET e == IF sends THEN Ctl(s, x, "close", FALSE) ELSE [s |-> s, rec |-> <<>>]
-           s1 == [e.s EXCEPT !.wr[x].closed = TRUE, !.rd[x].err = "error"] IN
+           s1 == [e.s EXCEPT !.wr[x].closed = TRUE, !.rd[x].err = IF @ = "none" THEN "error" ELSE @] IN
        Res(TRUE, s1, 0, "none", [NoRecs EXCEPT ![x] = IF sends THEN <<e.rec>> ELSE <<>>])
+
+(***************************************************************************)
+(* CloseWrite by x (Conn.CloseWrite -> closeNotify): close_notify goes     *)
+(* out, x will not write again (a passed write deadline stays on the       *)
+(* transport) but x keeps READING: the peer may go on sending data and     *)
+(* key updates.  SetWriteDeadline(past) alone has the second effect only.  *)
+(***************************************************************************)
+DoCloseWrite(s, x, sends) ==
+  IF ~s.live \/ s.wr[x].closed THEN Fail(s)
+  ELSE IF s.wr[x].shut THEN (IF sends THEN Fail(s) ELSE Res(TRUE, s, 0, "none", NoRecs))
+  ELSE IF ~s.wr[x].dead /\ ~sends THEN Fail(s)
+  ELSE LET e == IF sends THEN Ctl(s, x, "close", FALSE) ELSE [s |-> s, rec |-> <<>>] IN
+       Res(TRUE, [e.s EXCEPT !.wr[x].shut = TRUE, !.wr[x].exp = TRUE], 0, "none",
+           [NoRecs EXCEPT ![x] = IF sends THEN <<e.rec>> ELSE <<>>])
+DoWriteDeadlinePast(s, x) ==
+  IF ~s.live \/ s.wr[x].closed THEN Fail(s)
+  ELSE Res(TRUE, [s EXCEPT !.wr[x].exp = TRUE], 0, "none", NoRecs)
 
 (***************************************************************************)
 (* The attacker alters (flips a bit of / truncates) the i-th record of x   *)
@@ -393,13 +433,19 @@ StreamPrefix(s) == \A x \in Sides : s.rd[Peer(x)].rcvd <= s.wr[x].sent
 \* C25: nothing of an altered record, or of anything after it, is ever delivered
 NothingPastMutation(s) == \A x \in Sides : s.mutoff[x] >= 0 => s.rd[Peer(x)].rcvd <= s.mutoff[x]
 \* C25 (key updates), C27: without an attacker and without Close nobody ever sees an error
-Undisturbed(s) == \A x \in Sides : ~s.cut[x] /\ ~s.wr[x].closed
+Undisturbed(s) == \A x \in Sides : ~s.cut[x] /\ ~s.wr[x].closed /\ ~s.wr[x].shut /\ ~s.wr[x].exp
 NoSpuriousError(s) == Undisturbed(s) => \A x \in Sides : s.rd[x].err = "none" /\ ~s.wr[x].dead
 \* with nothing in flight, reader and writer of a direction agree on (epoch, seq) and on the stream position
 InSync(s) == Undisturbed(s) => \A x \in Sides :
                 (s.net[x] = <<>> /\ s.rd[Peer(x)].buf = 0) =>
                    /\ s.rd[Peer(x)].ep = s.wr[x].ep /\ s.rd[Peer(x)].seq = s.wr[x].seq
                    /\ s.rd[Peer(x)].rcvd = s.wr[x].sent
+\* C25, half-closed / write-blocked sides: as long as nobody tampers and x has not Closed, x reads without error
+\* whatever the state of its own writing half (unless the PEER's writing half went wrong: burnt numbers)
+ReadsSurviveOwnWriteFailure(s) ==
+  \A x \in Sides : (/\ ~s.cut[x] /\ ~s.cut[Peer(x)] /\ ~s.wr[x].closed /\ ~s.wr[x].junk /\ ~s.wr[Peer(x)].junk
+                    /\ ~s.wr[Peer(x)].dead /\ ~s.wr[Peer(x)].exp)
+                       => s.rd[x].err \in {"none", "eof"}
 \* an error, once reported to Read, is reported for ever and nothing more is delivered (checked as an action property in MC)
 Sticky(s, t) == \A x \in Sides : (s.rd[x].err # "none" /\ s.rd[x].buf = 0) => (t.rd[x].err = s.rd[x].err /\ t.rd[x].rcvd = s.rd[x].rcvd)
 =============================================================================
